@@ -9,6 +9,7 @@ import Proofs.C14.Wallet
 import Proofs.C14.Tr
 import Proofs.C14.Toy
 import Proofs.C14.CoreImport
+import Proofs.C14.Assemble
 /-!
 # C14 — descriptors and wallets derive what they describe and recognise only their own
 
@@ -508,6 +509,69 @@ theorem at_index_commutes (net : String) (prv : PrvKeys) (d d' : D) (i : Nat) (h
       have hb : ¬ 0 ≥ INDEX_BOUND := by decide
       unfold scriptPubKeys
       simp only [hb, h1, h2, if_false, ne_eq, not_true_eq_false, false_and, scripts_atIndex]
+
+/-- T3 at full strength, EVERY descriptor form of the grammar model (pk, pkh, wpkh, combo, sh(…), wsh(…), multi /
+    sortedmulti at top level or inside sh / wsh / sh(wsh), tr with a key only or with a tree of pk / multi_a /
+    sortedmulti_a / miniscript leaves, rawtr, addr, raw, miniscript): what the descriptor describes at index `i` is —
+    when every one of its key expressions derives at `i`, and refused otherwise — the STANDARD SCRIPT ASSEMBLED BY HAND
+    (`Btc.Desc.assemble`: opcodes and pushes only, no BIP32, no index, no `prv_keys`) from the public keys BIP32 derives
+    at `i` (`Key.derived`: the literal key `KeyExpression.sec` answers; `D.mapKeys` / `D.keys` are btclib's
+    `_mapped_keys` / `key_expressions`). -/
+theorem scripts_are_assembled_from_bip32_keys (net : String) (prv : PrvKeys) (i : Nat) (d : D) :
+    scripts E net prv i d =
+      if allDerive E net prv i d.keys then assemble E (d.mapKeys (Key.derived E net prv i)) else none :=
+  scripts_eq_assemble E net prv i d
+
+/-- … where the key of a key expression at `i` is: the fixed key itself, or C07's `Bip32.derive` of the extended key
+    (the private one `prv_keys` holds for it, when it does) along the written path followed by the wildcard step
+    (`i`, or `2^31 + i` for `*h`), then its public key, provided its version is the network's. -/
+theorem key_expression_is_bip32_derivation (net : String) (prv : PrvKeys) (i : Nat) (k : Key) :
+    Key.sec E net prv k i =
+      match k.atom with
+      | .pub sec _ => some sec
+      | .xkey t =>
+        match decodeXkey E ((prv.lookup t).getD t), networkOf net with
+        | some x, some n =>
+          match Bip32.derive E.bip x (k.path ++ (match k.wildcard with
+              | none => [] | some hd => [(if hd then HARDENED_OFFSET else 0) + i])) none with
+          | .error _ => none
+          | .ok y =>
+            if y.isPrivate then
+              (if n.xprv.contains (versionNats y.version) then some (Bip32.pubOfPrv E.bip y.prvInt) else none)
+            else (if n.xpub.contains (versionNats y.version) then some y.key else none)
+        | _, _ => none :=
+  key_sec_is_bip32 E net prv i k
+
+/-- a hardened step — in the written path, or the `*h` wildcard — cannot be walked from an extended PUBLIC key: the
+    key expression (hence, by the theorem above, every descriptor holding it) is refused at every index, unless
+    `prv_keys` holds the private key under that spelling. -/
+theorem hardened_step_from_xpub_refused (net : String) (prv : PrvKeys) (i : Nat) (k : Key) (t : List Char)
+    (x : Bip32.XKey) (hk : k.atom = .xkey t) (hx : decodeXkey E ((prv.lookup t).getD t) = some x)
+    (hpub : x.isPrivate = false) (hh : ∃ s ∈ k.fullPath i, s ≥ Bip32.HARDENED) :
+    Key.sec E net prv k i = none ∧
+    ∀ d : D, k ∈ d.keys → scripts E net prv i d = none := by
+  have h := hardened_from_xpub_refused E net prv i k t x hk hx hpub hh
+  refine ⟨h, fun d hd => ?_⟩
+  rw [scripts_eq_assemble]
+  have : allDerive E net prv i d.keys = false := by
+    unfold allDerive
+    rw [List.all_eq_false]
+    exact ⟨k, hd, by simp [h]⟩
+  simp [this]
+
+/-- the hand assembly written out on literal keys, on the toy environment (HASH160 = 20 octets of the key):
+    `wsh(sortedmulti(1, 03…, 02…))` sorts the keys bytewise and wraps `1 <02…> <03…> 2 CHECKMULTISIG`;
+    `pkh` is `DUP HASH160 <20> EQUALVERIFY CHECKSIG`; a descriptor one of whose keys does not derive is refused. -/
+example :
+    let a : Bytes := 3 :: List.replicate 32 7
+    let b : Bytes := 2 :: List.replicate 32 9
+    assemble toyE (.pkh (Key.fixed a)) = some [[0x76, 0xa9, 0x14] ++ toyE.bip.h160 a ++ [0x88, 0xac]] ∧
+    assemble toyE (.multi 1 [Key.fixed a, Key.fixed b] true) =
+      some [[0x51, 0x21] ++ b ++ [0x21] ++ a ++ [0x52, 0xae]] ∧
+    scripts toyE "mainnet" [] 5 (.sh (.multi 1 [Key.fixed a, Key.fixed b] true)) =
+      assemble toyE (.sh (.multi 1 [Key.fixed a, Key.fixed b] true)) ∧
+    scripts toyE "mainnet" [] 0 (.pkh { (Key.fixed a) with atom := .xkey ['x'] }) = none := by
+  decide +kernel
 
 /-- `tr(KEY, TREE)` and C12, in the group (`L : Lawful E.bip.o G`, C01's statement about the arithmetic; `hp`: the
     field fits 32 bytes; `h32`: tagged hashes are 32 bytes; `hQ`: the tweaked point is not the point at infinity):
